@@ -1,3 +1,9 @@
-struct {
-	int x : 1, y, z : 1;
-} s = {.z = 1};
+int main(void) {
+	int x = 2, y = 0;
+	do {
+		if (x == 1)
+			continue;
+		++y;
+	} while (x--);
+	return y != 2;
+}
